@@ -56,3 +56,25 @@ Proof.
   split; [exact (MaskStringsProofs.nonviable_mask_empty G X p)|intros xs; exact (MaskStringsProofs.language_iff_tree G X xs)].
 Qed.
 Print Assumptions C01_viable_iff_completable.
+
+(* End to end, on the EOS-wrapped grammar the language model works with (s' fresh): after the context ctx a token t
+   other than eos is offered (its mask bit is set at some height) exactly when ctx t can be completed to a string of the
+   grammar; eos is offered exactly when ctx is a complete string of the grammar (eos not being a terminal of the
+   grammar); and the strings of the wrapped grammar are the strings of the grammar followed by eos. *)
+From GV.proofs Require MaskEosProofs.
+Theorem C01_mask_end_to_end : forall (G : grammar BoolSR) (s' s eos : nat) (ctx : list nat),
+  (forall r, In r G -> rhead r <> s') -> (forall r, In r G -> ~ In (N s') (rbody r)) ->
+  (forall r, In r G -> ~ In (T eos) (rbody r)) ->
+  (forall t, t <> eos ->
+     ((exists h, Wpre (add_eos s' s eos G) h s' (ctx ++ [t]) = true) <->
+      exists rest, MaskStringsProofs.in_language G s (ctx ++ t :: rest))) /\
+  ((exists h, Wpre (add_eos s' s eos G) h s' (ctx ++ [eos]) = true) <-> MaskStringsProofs.in_language G s ctx) /\
+  (forall ys, MaskStringsProofs.in_language (add_eos s' s eos G) s' ys <->
+     exists xs, ys = xs ++ [eos] /\ MaskStringsProofs.in_language G s xs).
+Proof.
+  intros G s' s eos ctx Hh Hb He.
+  split; [intros t Ht; exact (MaskEosProofs.mask_token_gen G s' s eos ctx t Hh Hb Ht)|].
+  split; [exact (MaskEosProofs.mask_eos_syntactic G s' s eos ctx Hh Hb He)|].
+  intros ys. exact (MaskEosProofs.eos_language G s' s eos ys Hh Hb).
+Qed.
+Print Assumptions C01_mask_end_to_end.
